@@ -209,7 +209,12 @@ class Scalar(object):
                     raise Unknown('arity of ' + name)
                 return mk(FUNCS[name], args)
             if name == 'float' and len(n.args) == 1:
-                return self.ev(n.args[0])
+                inner = self.ev(n.args[0])
+                # float() of an *operand* rounds an int sample above 2**53 before the operator sees it (the sibling without the cast divides /
+                # compares the exact ints): kept in the normal form.  float() of anything computed is the identity on what it is applied to here.
+                if isinstance(inner, tuple) and inner and inner[0] == 'x':
+                    return ('cast', 'float', inner)
+                return inner
             raise Unknown('call of %s' % (name or ast.unparse(n.func)))
         if isinstance(n, ast.Subscript):
             # L[i] with i the loop index;  pair[1] value component of a dense sample
